@@ -255,4 +255,43 @@ def applyWrites (s : Bytes â†’ Option Bytes) : List (Bytes Ã— Bytes) â†’ Bytes â
   | [] => s
   | (k, v) :: rest => applyWrites (put s k v) rest
 
+/-! ### the header of the genesis momentum (`chain/genesis/momentum.go` `newGenesisMomentum`) -/
+
+/-- the scalar members of `GenesisConfig` (`ChainIdentifier uint64`, `ExtraData string`, `GenesisTimestampSec int64`):
+    everything of the configuration that reaches the momentum HEADER (the lists reach `Content` / `ChangesHash`).
+    A member left out of the genesis file is the zero value: `0`, `""`, `0`. -/
+structure HeaderCfg where
+  chainIdentifier : Nat := 0
+  extraData : Bytes := []
+  genesisTimestampSec : Int := 0
+  deriving DecidableEq, Repr
+
+/-- the header fields of `nom.Momentum` that `newGenesisMomentum` sets (`Gen.gnHeaderLiteral`); `PreviousHash` stays zero -/
+structure MomentumHeader where
+  version : Nat
+  chainIdentifier : Nat
+  height : Nat
+  timestampUnix : Nat
+  data : Bytes
+  deriving DecidableEq, Repr
+
+/-- Go's conversion `uint64(x)` of an `int64`: two's complement -/
+def toUint64 (x : Int) : Nat := (x % (two64 : Int)).toNat
+
+/-- `newGenesisMomentum`, header part, line by line:
+      timestamp := time.Unix(genesisConfig.GenesisTimestampSec, 0)
+      m := &nom.Momentum{Version: 1, ChainIdentifier: genesisConfig.ChainIdentifier, Height: 1,
+                         TimestampUnix: uint64(timestamp.Unix()), Data: []byte(genesisConfig.ExtraData), â€¦}
+    `time.Unix(s, 0).Unix() = s` for every int64 `s` (the constant `unixToInternal` is added and subtracted in wrapping
+    int64 arithmetic), so the timestamp is `uint64(GenesisTimestampSec)` â€” for EVERY value, 0 (= the member left out of
+    the file) included. The function has no argument besides the configuration: no clock, no environment. -/
+def genesisHeader (c : HeaderCfg) : MomentumHeader :=
+  { version := 1, chainIdentifier := c.chainIdentifier, height := 1,
+    timestampUnix := toUint64 c.genesisTimestampSec, data := c.extraData }
+
+/-- the shape the model excludes (seeded defect C20-r5-2 and its siblings): a header that falls back to a reading of
+    the process' surroundings (`amb`: clock, environment, host, random state) when a member has its zero value -/
+def genesisHeaderAmbient (amb : Int) (c : HeaderCfg) : MomentumHeader :=
+  { genesisHeader c with timestampUnix := toUint64 (if c.genesisTimestampSec = 0 then amb else c.genesisTimestampSec) }
+
 end ZV.Genesis
